@@ -78,6 +78,29 @@ def main(argv):
             print(json.dumps(tr, indent=1))
         return 0
 
+    if cmd == "find":
+        # ./check find <ID> <signature substring> [max index]: first run whose violation signature
+        # contains the substring; shrinks it and writes a replay file (used to produce reproducers)
+        from hexsim import shrink as shrinker
+
+        pid, needle = argv[1].upper(), argv[2]
+        limit = int(argv[3]) if len(argv) > 3 else 5000
+        prop = runner.load_prop(pid)
+        base = int(os.environ.get("VERIF_SEED", "0"))
+        seen = {}
+        for index in range(limit):
+            tr = runner.plan_run(base, prop, index)
+            v = prop.execute(tr)
+            if v.status == "violation":
+                seen[v.signature] = seen.get(v.signature, 0) + 1
+                if needle in v.signature:
+                    small, v2 = shrinker.shrink(prop, tr, v.signature, time_limit=60)
+                    path = runner.write_replay(pid, small, v2)
+                    print("found at index", index, v2.signature, "replay", path)
+                    return 1
+        print("not found; signatures seen:", json.dumps(seen, indent=1))
+        return 0
+
     if cmd == "selftest-determinism":
         from hexsim import selftest
 
